@@ -162,6 +162,15 @@ def write_file(path, a, fmt, sep=None, numfmt="%.18e", how="inplace"):
     elif fmt in ("txt", "data", "csv"):
         with open(path, "w") as f:
             np.savetxt(f, a, delimiter=sep, fmt=numfmt)
+    elif fmt == "fitsmef":
+        # multi-extension FITS: empty primary HDU, the image in the first extension, other planes after it
+        from astropy.io import fits
+        import numpy as np
+
+        hdus = [fits.PrimaryHDU(), fits.ImageHDU(a, name="SCI"), fits.ImageHDU((a.astype(float) * 0 + 7.0).astype("float32"), name="ERR")]
+        if a.size % 2 == 0:
+            hdus.append(fits.ImageHDU(np.zeros(a.shape, dtype="uint8") + 3, name="DQ"))
+        fits.HDUList(hdus).writeto(path, overwrite=True)
     elif fmt == "fitstable":
         from astropy.table import Table
 
@@ -174,7 +183,7 @@ def write_file(path, a, fmt, sep=None, numfmt="%.18e", how="inplace"):
 
 
 def ext_of(fmt):
-    return {"npy": ".npy", "fits": ".fits", "txt": ".txt", "data": ".data", "csv": ".csv", "fitstable": ".fits"}[fmt]
+    return {"npy": ".npy", "fits": ".fits", "txt": ".txt", "data": ".data", "csv": ".csv", "fitstable": ".fits", "fitsmef": ".fits"}[fmt]
 
 
 def run_model(case, path, working_directory=None):
@@ -925,7 +934,7 @@ def special_floats(rng):
 
 def gen_format(rng, n):
     cases = []
-    combos = ([("image", "npy", None), ("image", "fits", None), ("table", "npy", None), ("table", "fitstable", None)]
+    combos = ([("image", "npy", None), ("image", "fits", None), ("image", "fitsmef", None), ("table", "npy", None), ("table", "fitstable", None)]
               + [("image", e, s) for e in ("txt", "data") for s in SEPS]
               + [("table", e, s) for e in ("txt", "data", "csv") for s in SEPS])
     for i in range(n):
@@ -936,7 +945,7 @@ def gen_format(rng, n):
             ay, ax = rng.choice([12, 20, 41]), rng.choice([5, 8, 13, 24])
         kind = rng.choice(["int", "float", "bits", "special"])
         dtype = "float64"
-        if fmt in ("npy", "fits") and loader == "image":
+        if fmt in ("npy", "fits", "fitsmef") and loader == "image":
             # every pixel type in turn (unsigned FITS images are stored with BZERO and rescaled on reading)
             dtype = ["float64", "uint16", "int32", "float32", "uint32", "int16", "uint8", "int64", "float64"][(i // len(combos)) % 9]
             if dtype != "float64":
